@@ -291,6 +291,24 @@ type Result struct {
 	Obs        []string // one line per op: "r 1=.. 2=.."
 	Fails      []Fail
 	Situations []string // interesting situations hit (for distribution accounting)
+	// Inserted ops: after the op with index i (0-based), these ops are inserted into the history that
+	// is given to the MODEL; they carry outputs of the implementation (e.g. a selection result to be
+	// judged by the model's executable property checkers). Each comes with the line the Go side answers.
+	Inserted map[int][]Inserted
+}
+
+// Inserted is an op inserted into the model's history, with the Go-side answer line.
+type Inserted struct {
+	Op  Op
+	Obs string
+}
+
+// Insert registers an inserted op after step i.
+func (r *Result) Insert(after int, op Op, obsToks ...string) {
+	if r.Inserted == nil {
+		r.Inserted = map[int][]Inserted{}
+	}
+	r.Inserted[after] = append(r.Inserted[after], Inserted{Op: op, Obs: strings.TrimSpace("r " + strings.Join(obsToks, " "))})
 }
 
 // AddObs appends an observation line built from labelled tokens.
@@ -467,14 +485,31 @@ func cmdRun(fl map[string]string) {
 		panic(err)
 	}
 	w := bufio.NewWriterSize(out, 1<<20)
+	augf, err := os.Create(fl["out"] + ".aug")
+	if err != nil {
+		panic(err)
+	}
+	aw := bufio.NewWriterSize(augf, 1<<20)
 	st := runStats{Situations: map[string]int{}, OpCodes: map[string]int{}, LengthHisto: map[string]int{}}
 	seen := map[string]bool{}
 	seenNT := map[string]bool{}
 	for i, h := range hs {
 		fmt.Fprintf(w, "history %s\n", h.ID)
-		for _, l := range results[i].Obs {
+		aug := &History{ID: h.ID, Component: h.Component, Config: h.Config}
+		for k, l := range results[i].Obs {
 			fmt.Fprintln(w, l)
+			if k < len(h.Ops) {
+				aug.Ops = append(aug.Ops, h.Ops[k])
+			}
+			for _, ins := range results[i].Inserted[k] {
+				fmt.Fprintln(w, ins.Obs)
+				aug.Ops = append(aug.Ops, ins.Op)
+			}
 		}
+		for k := len(results[i].Obs); k < len(h.Ops); k++ {
+			aug.Ops = append(aug.Ops, h.Ops[k])
+		}
+		aug.Write(aw)
 		st.Histories++
 		st.Ops += len(h.Ops)
 		for _, o := range h.Ops {
@@ -501,6 +536,8 @@ func cmdRun(fl map[string]string) {
 	}
 	w.Flush()
 	out.Close()
+	aw.Flush()
+	augf.Close()
 	js, _ := json.Marshal(st)
 	if fl["stats"] != "" {
 		_ = os.WriteFile(fl["stats"], js, 0o644)
